@@ -1005,3 +1005,21 @@ def gen_res_big(rng, tier):
                 case.append("iter %s %s %s" % (kf, so, h))
         cases.append(case)
     return cases
+
+
+def gen_nameeq(rng, tier):
+    """the public comparisons of `resources::Name` — `==` in both orders, `== str`, `== u32`, the `From` conversions —
+    on ids, UTF-16 names and Rust strings: `#<id>` and predefined `#TYPE` spellings, leading zeros and signs the integer
+    parser treats differently, names that differ only in case, non-BMP characters, unpaired surrogates (the Str-on-the-left
+    arms of `PartialEq for Name` are not reached by any lookup: found by the line-coverage run of the streams)"""
+    ids = [0, 1, 3, 9, 10, 14, 16, 21, 22, 24, 25, 100, 0xFFFF, 0x10000, 0xFFFFFFFF]
+    wides = [utf16(x) for x in ("", "A", "a", "#3", "#ICON", "MAINICON", "app\U0001F600", "é")] + [(0xD800,), (0x41, 0xDC00), (0xD83D, 0xDE00)]
+    strs = [x.encode("utf-8") for x in ("", "#", "#0", "#1", "#3", "#03", "#+3", "#3 ", "#14", "#16", "#21", "#22", "#24", "#25", "#100", "#65535", "#65536",
+                                        "#4294967295", "#4294967296", "#ICON", "#icon", "#CURSOR", "#VERSION", "#MANIFEST", "#ANICURSOR", "#ANIICON",
+                                        "#HTML", "#GROUP_ICON", "#RCDATA", "A", "a", "MAINICON", "app\U0001F600", "é", "�")]
+    names = [name_arg(i) for i in ids] + [name_arg(w) for w in wides] + [str_arg(s) for s in strs]
+    pairs = [(a, b) for a in names for b in names]
+    if tier == "quick":
+        keep = [p for p in pairs if p[0].startswith("s:") or p[1].startswith("s:")]
+        pairs = keep[::3] + rng.sample(pairs, 150)
+    return [["nameeq %s %s" % p for p in pairs[i:i + 50]] for i in range(0, len(pairs), 50)]
